@@ -2,6 +2,7 @@
 known_findings entries.  usage: collect_findings.py Cxx 'signature-regex' out.json "class description" """
 import sys, os, json, re, glob
 prop, rx, out, desc = sys.argv[1:5]
+ALL = len(sys.argv) > 5 and sys.argv[5] == "--all"   # also entries whose evidence is a measured state change, not a diverging result
 root = os.path.dirname(os.path.dirname(os.path.dirname(os.path.abspath(__file__))))
 ent = {}
 if os.path.exists(out):
@@ -9,7 +10,7 @@ if os.path.exists(out):
         ent[f["signature"]] = f
 for p in sorted(glob.glob(os.path.join(root, "replays", prop + "-*.json"))):
     r = json.load(open(p))
-    if r.get("failing_input_found") and re.search(rx, r["signature"]) and r["signature"] not in ent:
+    if (r.get("failing_input_found") or ALL) and re.search(rx, r["signature"]) and r["signature"] not in ent:
         ent[r["signature"]] = {"property": prop, "signature": r["signature"], "class": desc, "what": r["what"][:400], "input": r.get("case")}
 json.dump({"findings": [ent[k] for k in sorted(ent)]}, open(out, "w"), indent=1)
 print(len(ent), "entries")
